@@ -32,7 +32,7 @@ PARAM_NAMES = ("delta", "max_buckets", "new_sample_thresh", "window_size_thresh"
 
 
 def cases(tier, seed):
-    n = 320 if tier == "quick" else 4000
+    n = 320 if tier == "quick" else 30000
     out = []
     for i in range(n):
         out.append({"id": "adwin/%d" % i, "cls": "ADWIN", "seed": [seed, 3, i]})
